@@ -25,10 +25,10 @@ THEOREMS = ["UrcuVerif.Fork.fork_point_quiescent", "UrcuVerif.Fork.child_state_w
             "UrcuVerif.ForkBp.bp_fork_point", "UrcuVerif.ForkBp.bp_child_pruned", "UrcuVerif.ForkBp.bp_child_gp_terminates",
             "UrcuVerif.ForkBp.mask_restored",
             "UrcuVerif.ForkBp.inv_reach", "UrcuVerif.ForkWq.atfork_nesting_balanced", "UrcuVerif.ForkWq.inv_reach"]
-UNPROVED = ["UrcuVerif.Fork.C16_full (liveness half: every callback queued at the fork is eventually invoked in each process): as "
-            "written its FairRun has no 'read-side sections end' clause, so it does not hold (argued). Proved with explicit "
-            "hypotheses: after_fork_child_eventually_returns (weak fairness of the forking thread's handler steps) + C03's "
-            "queued_callback_eventually_invoked for the helpers of each process"]
+UNPROVED = ["(none beyond the restatement) C16_full' / C16_full_parent' = C16_full with explicit provisos (weak fairness of the handler's and "
+            "the helpers' steps, read-side sections end, no further fork) are proved: C16_full'_proved, C16_full_parent'_proved "
+            "(every callback queued at the fork is eventually invoked, exactly once, in the child and in the parent). The original "
+            "C16_full lacks the 'sections end' clause and does not hold as written (argued)"]
 TRUSTED = ["Lean 4.33 kernel; axioms ⊆ {propext, Classical.choice, Quot.sound}",
            "fork() clones only the calling thread with a copy of memory (model: Fork.childOf / ForkBp fork); POSIX mutex semantics",
            "L2 granularity: pause/resume handshake flag access by flag access; code under call_rcu_mutex / rcu_registry_lock that "
